@@ -9,7 +9,9 @@ GEN = ['GChecks.v', 'GParser.v', 'GUnicode.v']
 
 LEAVES = ['role:admin', 'role:%(x)s', 'rule:other', 'rule:a:b', 'user_id:%(user_id)s', "'Member':%(role.name)s",
           '"quoted":%(k)s', 'True:%(enabled)s', 'a.b.c:x', 'http://host/path', 'https://h/%(id)s', '@', '!',
-          'k:', ':v', 'k:v:w', "k:'v'", 'x:(y', 'a:b)c', 'rôle:ádmin', "'a':'b'", '"a":"b"', "'q'", 'nocolon']
+          'k:', ':v', 'k:v:w', "k:'v'", 'x:(y', 'a:b)c', 'rôle:ádmin', "'a':'b'", '"a":"b"', "'q'", 'nocolon',
+          # literal left sides that decide True for the probe target: printing must keep them literals
+          "'admin':%(x)s", '"u":%(user_id)s', "'nope':%(x)s", 'None:%(absent)s', '1:%(one)s']
 ROLESETS = [[], ['admin'], ['other'], ['admin', 'other']]
 
 
@@ -37,7 +39,7 @@ def decisions(value):
     out = []
     for roles in ROLESETS:
         try:
-            out.append(bool(e.enforce('r', {'x': 'admin', 'user_id': 'u'}, {'roles': roles, 'user_id': 'u'})))
+            out.append(bool(e.enforce('r', {'x': 'admin', 'user_id': 'u', 'one': 1}, {'roles': roles, 'user_id': 'u', 'admin': 'nope', 'u': 'x'})))
         except Exception as ex:   # noqa
             out.append('EXC ' + type(ex).__name__)
     return out
